@@ -179,11 +179,11 @@ SPECS["C02"] = {
                  M("maptree", 12, "del,clear,o_rb", mode="shape"), M("settree", 12, "del,clear,o_rb", mode="shape", hint=9), K("ktree", 8, 1, "fle,fleby,clear,o_rb", mode="shape", cap_s=900)],
 }
 SPECS["C11"] = {
-    "quick": [K("ktree", 5, 1, "get,o_arena"), F("maptree", MA + ",o_arena"), F("settree", MA + ",o_arena", hint=9), F("ktree", "fl,fle,fleby,get,o_arena"), F("maptree", MA + ",o_arena", hint=64, sizes="48,64,65,100"), K("ktree", 4, 2, KA + ",o_arena"), M("maptree", 6, MA + ",o_arena"), M("settree", 6, MA + ",o_arena"), K("ktree", 3, 3, KA + ",o_arena"),
+    "quick": [M("maptree", 4, MA + ",o_arena", hint=1000), K("ktree", 3, 2, KA + ",o_arena", hint=1000), K("ktree", 5, 1, "get,o_arena"), F("maptree", MA + ",o_arena"), F("settree", MA + ",o_arena", hint=9), F("ktree", "fl,fle,fleby,get,o_arena"), F("maptree", MA + ",o_arena", hint=64, sizes="48,64,65,100"), K("ktree", 4, 2, KA + ",o_arena"), M("maptree", 6, MA + ",o_arena"), M("settree", 6, MA + ",o_arena"), K("ktree", 3, 3, KA + ",o_arena"),
               M("maptree", 4, MA + ",o_arena", hint=0), M("settree", 4, MA + ",o_arena", hint=1), K("ktree", 3, 2, KA + ",o_arena", hint=0),
               M("maptree", 10, "del,clear,o_arena", mode="shape"), M("settree", 10, "del,clear,o_arena", mode="shape", hint=9), K("ktree", 8, 0, "fleby,clear,o_arena", mode="shape", hint=9),
               M("maptree", 4, MA + ",o_arena", hint=64), K("ktree", 3, 2, KA + ",o_arena", hint=64)],
-    "thorough": [M("maptree", 14, "del,clear,o_arena", mode="shape", cap_s=1500), M("settree", 14, "del,clear,o_arena", mode="shape", hint=9, cap_s=1500), M("maptree", 16, "del,o_arena", mode="shape", cap_s=2400, max_states=60000000, label="maptree<u16> N=16 shape hint=8 (second arena growth inside the exhaustive search)"), K("ktree", 5, 1, "get,o_arena"), F("maptree", MA + ",o_arena"), F("settree", MA + ",o_arena", hint=9), F("ktree", "fl,fle,fleby,get,o_arena"), F("maptree", MA + ",o_arena", hint=64, sizes="48,64,65,100"), M("maptree", 7, MA + ",o_arena"), M("settree", 7, MA + ",o_arena"), K("ktree", 4, 4, KA + ",o_arena"),
+    "thorough": [M("maptree", 4, MA + ",o_arena", hint=1000), K("ktree", 3, 2, KA + ",o_arena", hint=1000), M("maptree", 14, "del,clear,o_arena", mode="shape", cap_s=1500), M("settree", 14, "del,clear,o_arena", mode="shape", hint=9, cap_s=1500), M("maptree", 16, "del,o_arena", mode="shape", cap_s=2400, max_states=60000000, label="maptree<u16> N=16 shape hint=8 (second arena growth inside the exhaustive search)"), K("ktree", 5, 1, "get,o_arena"), F("maptree", MA + ",o_arena"), F("settree", MA + ",o_arena", hint=9), F("ktree", "fl,fle,fleby,get,o_arena"), F("maptree", MA + ",o_arena", hint=64, sizes="48,64,65,100"), M("maptree", 7, MA + ",o_arena"), M("settree", 7, MA + ",o_arena"), K("ktree", 4, 4, KA + ",o_arena"),
                  M("maptree", 6, MA + ",o_arena", hint=0), M("settree", 6, MA + ",o_arena", hint=1), K("ktree", 4, 3, KA + ",o_arena", hint=1),
                  M("maptree", 12, "del,clear,o_arena", mode="shape"), M("maptree", 12, "del,clear,o_arena", mode="shape", hint=9), M("settree", 12, "del,clear,o_arena", mode="shape", hint=9),
                  K("ktree", 9, 1, "fleby,clear,o_arena", mode="shape", hint=9, cap_s=900), M("settree", 6, MA + ",o_arena", hint=64), K("ktree", 4, 3, KA + ",o_arena", hint=64)],
@@ -236,13 +236,13 @@ SPECS["C18"] = {
 ALL_M = MAW + ",o_ref,o_handle,o_neigh,o_hstab"
 ALL_K = KA + ",o_pred,o_get,o_export"
 SPECS["C10"] = {
-    "quick": [M("maptree", 3, ALL_M, crash=1, quq=2), M("settree", 3, ALL_M, crash=1, quq=2), K("ktree", 2, 2, ALL_K, crash=1, quq=2), M("maptree", 4, ALL_M, crash=1, pay="track"), M("settree", 4, ALL_M, crash=1, pay="track"), FS(0, 31, "o_query", crash=1), FS(-1000, 3095, "o_query", crash=1), K("ktree", 3, 3, ALL_K, crash=1, tbase=252), K("klist", 3, 3, ALL_K, crash=1, tbase=252), F("maptree", ALL_M, crash=1), F("settree", ALL_M, crash=1), F("ktree", "fl,fle,fleby,get,o_pred,o_get,o_export", crash=1), K("ktree", 3, 3, ALL_K, crash=1, tbase=251), K("klist", 3, 3, ALL_K, crash=1, tbase=251), K("ktree", 4, 2, ALL_K, crash=1), M("maptree", 5, ALL_M, crash=1), M("settree", 5, ALL_M, crash=1), M("maplist", 5, ALL_M, crash=1), M("setlist", 5, ALL_M, crash=1),
+    "quick": [M("maptree", 3, ALL_M, crash=1, hint=1000), M("settree", 3, ALL_M, crash=1, hint=1000), K("ktree", 3, 2, ALL_K, crash=1, hint=1000), M("maptree", 3, ALL_M, crash=1, quq=2), M("settree", 3, ALL_M, crash=1, quq=2), K("ktree", 2, 2, ALL_K, crash=1, quq=2), M("maptree", 4, ALL_M, crash=1, pay="track"), M("settree", 4, ALL_M, crash=1, pay="track"), FS(0, 31, "o_query", crash=1), FS(-1000, 3095, "o_query", crash=1), K("ktree", 3, 3, ALL_K, crash=1, tbase=252), K("klist", 3, 3, ALL_K, crash=1, tbase=252), F("maptree", ALL_M, crash=1), F("settree", ALL_M, crash=1), F("ktree", "fl,fle,fleby,get,o_pred,o_get,o_export", crash=1), K("ktree", 3, 3, ALL_K, crash=1, tbase=251), K("klist", 3, 3, ALL_K, crash=1, tbase=251), K("ktree", 4, 2, ALL_K, crash=1), M("maptree", 5, ALL_M, crash=1), M("settree", 5, ALL_M, crash=1), M("maplist", 5, ALL_M, crash=1), M("setlist", 5, ALL_M, crash=1),
               M("maptree", 4, ALL_M, crash=1, hint=0, pay="heap"), M("settree", 4, ALL_M, crash=1, hint=1, pay="bare"), M("maptree", 10, "del,delh,clear,o_handle", mode="shape", crash=1, hint=9), M("settree", 10, "del,delh,clear,o_neigh", mode="shape", crash=1, hint=9), M("settree", 3, ALL_M, crash=1, hint=64),
               K("ktree", 3, 3, ALL_K, crash=1), K("klist", 3, 3, ALL_K, crash=1), K("ktree", 3, 2, ALL_K, crash=1, hint=0), K("ktree", 3, 2, ALL_K, crash=1, hint=64), K("ktree", 8, 0, "fleby,get,clear,o_export", mode="shape", crash=1, hint=9),
               S(0, 16, SA + ",o_query", crash=1), S(0, 31, SA + ",o_query", crash=1), S(-7, 92, SA + ",o_query", crash=1), S(-(1 << 31), (1 << 31) - 1, SA + ",o_query", crash=1),
               SW("layout", lmax=600, all_coords=600, label="layout sweep (constructor and edge coordinates, process outcome only)"), SW("dpairs", lo=0, hi=128, label="all insert x query range pairs on [0,128] (process outcome)"),
               SW("niche", type="key", label="KeyExpTree::new with a key type that has no all-zero value"), SW("niche", type="val", label="KeyExpTree::new with a value type that has no all-zero value"), SW("niche", type="list", label="KeyExpList with the same key type")],
-    "thorough": [M("maptree", 14, "del,delh,clear,o_handle", mode="shape", crash=1, cap_s=1500), M("settree", 14, "del,delh,clear,o_neigh", mode="shape", crash=1, hint=9, cap_s=1500), M("maptree", 3, ALL_M, crash=1, quq=2), M("settree", 3, ALL_M, crash=1, quq=2), K("ktree", 2, 2, ALL_K, crash=1, quq=2), M("maptree", 4, ALL_M, crash=1, pay="track"), M("settree", 4, ALL_M, crash=1, pay="track"), FS(0, 31, "o_query", crash=1), FS(-1000, 3095, "o_query", crash=1), K("ktree", 3, 3, ALL_K, crash=1, tbase=252), K("klist", 3, 3, ALL_K, crash=1, tbase=252), F("maptree", ALL_M, crash=1), F("settree", ALL_M, crash=1), F("ktree", "fl,fle,fleby,get,o_pred,o_get,o_export", crash=1), M("maptree", 7, MA + ",o_ref,o_handle,o_hstab", crash=1), M("settree", 7, MA + ",o_ref,o_handle,o_neigh,o_hstab", crash=1), M("maplist", 7, ALL_M, crash=1), M("setlist", 7, ALL_M, crash=1),
+    "thorough": [M("maptree", 3, ALL_M, crash=1, hint=1000), M("settree", 3, ALL_M, crash=1, hint=1000), K("ktree", 3, 2, ALL_K, crash=1, hint=1000), M("maptree", 14, "del,delh,clear,o_handle", mode="shape", crash=1, cap_s=1500), M("settree", 14, "del,delh,clear,o_neigh", mode="shape", crash=1, hint=9, cap_s=1500), M("maptree", 3, ALL_M, crash=1, quq=2), M("settree", 3, ALL_M, crash=1, quq=2), K("ktree", 2, 2, ALL_K, crash=1, quq=2), M("maptree", 4, ALL_M, crash=1, pay="track"), M("settree", 4, ALL_M, crash=1, pay="track"), FS(0, 31, "o_query", crash=1), FS(-1000, 3095, "o_query", crash=1), K("ktree", 3, 3, ALL_K, crash=1, tbase=252), K("klist", 3, 3, ALL_K, crash=1, tbase=252), F("maptree", ALL_M, crash=1), F("settree", ALL_M, crash=1), F("ktree", "fl,fle,fleby,get,o_pred,o_get,o_export", crash=1), M("maptree", 7, MA + ",o_ref,o_handle,o_hstab", crash=1), M("settree", 7, MA + ",o_ref,o_handle,o_neigh,o_hstab", crash=1), M("maplist", 7, ALL_M, crash=1), M("setlist", 7, ALL_M, crash=1),
                  M("maptree", 5, ALL_M, crash=1, hint=0, pay="heap"), M("settree", 6, ALL_M, crash=1, hint=1, pay="bare"), M("maptree", 12, "del,delh,clear,o_handle", mode="shape", crash=1, hint=9), M("settree", 12, "del,delh,clear,o_neigh", mode="shape", crash=1, hint=9), M("settree", 5, ALL_M, crash=1, hint=64),
                  K("ktree", 4, 4, ALL_K, crash=1, cap_s=1200), K("klist", 4, 4, ALL_K, crash=1), K("ktree", 4, 3, ALL_K, crash=1, hint=0), K("ktree", 3, 3, ALL_K, crash=1, mode="full"), K("ktree", 9, 1, "fleby,get,clear,o_export", mode="shape", crash=1, hint=9, cap_s=900),
                  ] + [S(lo, hi, SA + ",o_query", crash=1) for (lo, hi) in DOMAINS_T] + [S(0, (1 << 32) - 1, SA + ",o_query", crash=1, coord="u32"), S(-(1 << 40), (1 << 40) + 5, SA + ",o_query", crash=1, coord="i64"),
